@@ -132,12 +132,31 @@ impl<'de> Deserialize<'de> for AnyDigest {
     }
 }
 
-/// Serialises through `collect_str` (documented: refused without alloc).
+/// Serialises through `collect_str` (documented: refused without alloc).  The Display impl
+/// produces ASCII and non-ASCII text through both `write_str` and `write_char`.
 pub struct ViaCollectStr(pub u32);
+
+impl core::fmt::Display for ViaCollectStr {
+    fn fmt(&self, f: &mut core::fmt::Formatter<'_>) -> core::fmt::Result {
+        use core::fmt::Write;
+        write!(f, "n={}", self.0)?;
+        let chars = ['a', 'é', '€', '😀', '\u{80}', 'z'];
+        for k in 0..(self.0 % 5) {
+            let c = chars[((self.0 >> (3 * k)) as usize) % chars.len()];
+            if k % 2 == 0 {
+                f.write_char(c)?
+            } else {
+                let mut buf = [0u8; 4];
+                f.write_str(c.encode_utf8(&mut buf))?
+            }
+        }
+        Ok(())
+    }
+}
 
 impl serde::Serialize for ViaCollectStr {
     fn serialize<S: serde::Serializer>(&self, s: S) -> Result<S::Ok, S::Error> {
-        s.collect_str(&format_args!("n={}", self.0))
+        s.collect_str(self)
     }
 }
 
@@ -203,7 +222,8 @@ fn ser_into<T: serde::Serialize + ?Sized>(v: &T, h: &mut Fnv) {
         Err(e) => {
             let t = format!("{}", e);
             // class of the encode error only (text may differ)
-            let c = if t.starts_with("write error") { "enc_write" } else if t.starts_with("encode error") { "enc_message" } else { "enc_other" };
+            // a message error renders as its bare message; write / custom errors have a fixed prefix
+            let c = if t.starts_with("write error") { "enc_write" } else if t.starts_with("encode error") { "enc_custom" } else { "enc_message" };
             let _ = h.write_str(c);
         }
     }
@@ -268,10 +288,23 @@ pub fn register(v: &mut Vec<(&'static str, Op)>) {
     );
     styped_only!(v; "serde.any" => AnyDigest, "serde.ignored" => IgnoredAny, "serde.(ignored,u8)" => (IgnoredAny, u8));
     v.push(("serde.ser.collect_str", (|b: &[u8]| {
-        let mut h = Fnv::new();
         let n = b.iter().take(4).fold(0u32, |a, x| (a << 8) | *x as u32);
-        ser_into(&ViaCollectStr(n), &mut h);
-        ok_out(h, 0)
+        let mut buf = [0u8; 128];
+        let mut s = Serializer::new(Cursor::new(&mut buf[..]));
+        match serde::Serialize::serialize(&ViaCollectStr(n), &mut s) {
+            Ok(_) => {
+                let e = s.into_encoder();
+                let k = e.writer().position();
+                let mut h = Fnv::new();
+                h.bytes(&e.writer().get_ref()[..k]);
+                ok_out(h, k)
+            }
+            Err(e) => {
+                let t = format!("{}", e);
+                let class = if t.starts_with("write error") { "enc_write" } else if t.starts_with("encode error") { "enc_custom" } else { "enc_message" };
+                Out { class, dig: 0, pos: 0, epos: None, flag: '-' }
+            }
+        }
     }) as Op));
     #[cfg(feature = "alloc")]
     {
